@@ -189,6 +189,29 @@ def run(ctx):
                     dtxt = src(den) if den is not None else ""
                     good = den is not None and f"{next(iter(dn_))}.s_vdot({next(iter(qn_))})" in dtxt
                 ctx.check("R14.2", f"{call.key}::alpha = <r, P r> / <d, A d>", good, src(adef) if adef is not None else None, call)
+    # after the gradient has been recomputed from scratch (energy.at without a gradient hint) the recurrence residual is re-read
+    plain_at = [(n_, c_) for n_, c_ in find_nodes(cfg, lambda q: isinstance(q, ast.Call) and call_name(q) == "at" and isinstance(q.func, ast.Attribute)
+                                                    and src(q.func.value) == call.params()[1])]
+    key = f"{call.key}::periodic recomputation re-synchronises the recurrence residual with energy.gradient"
+    if len(plain_at) != 1 or len(awg) != 1:
+        ctx.und("R14.2", key, f"{len(plain_at)} energy.at(...) sites", call)
+    else:
+        an, ac = plain_at[0]
+        rname_ = awg[0][1].args[1].id if isinstance(awg[0][1].args[1], ast.Name) else None
+        # first use of the residual name after the recomputation: its reaching definitions coming through this branch
+        uses = [n for n in cfg.nodes if n.id in cfg.reachable_after(an.id, avoid=[x.id for x in cfg.nodes if x.kind == "test" and x.loop is not None])
+                and any(u.id == rname_ for u in cfg.node_uses(n))]
+        okk = None
+        if rname_ and uses:
+            okk = True
+            first = min(uses, key=lambda n: n.lineno)
+            # definitions reaching `first` along paths through the recomputation node
+            sync = [n for n in cfg.nodes if n.kind == "stmt" and isinstance(n.ast, ast.Assign) and src(n.ast.targets[0]) == rname_
+                    and src(n.ast.value) == f"{call.params()[1]}.gradient"]
+            # every path from the recomputation to the first use must pass a re-synchronisation
+            okk = bool(sync) and first.id not in cfg.reachable_after(an.id, avoid=[x.id for x in sync], include_exc=False)
+        ctx.check("R14.2", key, okk, "after energy.at(...) recomputed A x - b, convergence is still judged on the recursively updated "
+                  "residual: the periodic correction of accumulated round-off has no effect", call, ac)
     Q = m.cls(QE, "QuadraticEnergy")
     ctx.saw_class(Q)
     awgf = Q.methods["at_with_grad"]
@@ -214,6 +237,7 @@ def run(ctx):
     ctx.check("R14.2", f"{ap.key}::solves A r = x (QuadraticEnergy(x0, A, x)) and returns the CG position",
               okq and src(last.ast.value).endswith(".position"), f"{short(qe[0]) if qe else None}; returns {src(last.ast.value)}", ap)
 
+    r14_4(ctx)
     ctx.rule("R14.3", "QuadraticEnergy: in both constructor branches Ax - gradient == b (0 without b), the value is "
                       "0.5*Re<x,Ax> - Re<b,x> with the same Ax", floor=5)
     init = Q.methods["__init__"]
@@ -287,3 +311,46 @@ def run(ctx):
     ctx.check("R14.3", f"{init.key}::value starts as 0.5*Re<x, Ax>", okv, src(vassign[0].value) if vassign else None, init)
     okb = len(vaug) == 1 and isinstance(vaug[0].op, ast.Sub) and src(vaug[0].value) in (f"{b}.s_vdot(self._position).real", f"self._position.s_vdot({b}).real")
     ctx.check("R14.3", f"{init.key}::value subtracts Re<b, x> when b is given", okb, src(vaug[0]) if vaug else None, init)
+
+
+IC = "nifty.cl.minimization.iteration_controllers"
+
+
+def r14_4(ctx):
+    """start() re-initialises the per-run state of a controller unconditionally in that state"""
+    m = ctx.model
+    base = m.cls(IC, "IterationController")
+    ctx.rule("R14.4", "iteration controllers are reusable: every per-run attribute that check() reads is (re)assigned by start(), and no "
+                      "assignment in start() is guarded by per-run state of an earlier run (an InversionEnabler re-uses one controller "
+                      "for every solve)", floor=6)
+    for c in m.subclasses(base):
+        if c.local:
+            continue
+        st, ck, ini = c.methods.get("start"), c.methods.get("check"), m.resolve_method(c, "__init__")
+        if st is None or ck is None:
+            continue
+        ctx.saw_class(c)
+        from ..util import assigned_attrs
+        a_init = set(assigned_attrs(ini.node)) if ini is not None else set()
+        a_start = assigned_attrs(st.node)
+        a_check = assigned_attrs(ck.node)
+        run_attrs = set(a_start) | set(a_check)
+        scfg = cfg_of(st)
+        bad = []
+        for attr, stmts in a_start.items():
+            for s_ in stmts:
+                nodes = scfg.nodes_of(s_)
+                if not nodes:
+                    continue
+                for t, pol in known_atoms(scfg, nodes[0].id):
+                    mentioned = {x.attr for x in ast.walk(t) if is_self_attr(x)}
+                    if mentioned & run_attrs:
+                        bad.append((attr, src(t)))
+        ctx.check("R14.4", f"{c.key}::start() initialises per-run state unconditionally in earlier runs' state", not bad,
+                  f"{bad}: the value computed for the first solve survives into later solves with a different right-hand side", st)
+        # attributes read by check before check assigns them must be set by start (or __init__)
+        reads = {x.attr for x in ast.walk(ck.node) if is_self_attr(x) and isinstance(x.ctx, ast.Load)}
+        missing = sorted(a for a in reads if a in run_attrs and a not in a_start and a not in a_init and a.startswith("_") and
+                         not any(isinstance(n, ast.FunctionDef) and n.name == a for n in c.node.body))
+        # conditional assignment in start is fine when check reads under the same configuration guard; only report never-assigned
+        ctx.check("R14.4", f"{c.key}::per-run attributes read by check() are set by start()", not missing, f"never initialised: {missing}", ck)
